@@ -2,6 +2,7 @@ import TLVerif.Util.Hex
 import TLVerif.Syntaxtl2.Parser
 import TLVerif.Syntaxtl2.Format
 import TLVerif.Syntaxtl2.ErrorPrint
+import TLVerif.Syntaxtl2.StructLemmas
 /-! Line-protocol handler for the `syntaxtl2` family: every line is a self-contained case.
 Mirrors go/hsyntaxtl2/main.go and the dump of go/hsyntaxtl2/overlay/verif_hooks_tl2.go. -/
 namespace TLVerif.Syntaxtl2
@@ -68,6 +69,19 @@ def errLine (tx : Bytes) (e : PErr) : String :=
 
 def tokStr (t : Token) : String := s!"{t.ty}:{t.val.length}:{t.pos.off}:{t.pos.line}:{t.pos.col}"
 
+/-- hypotheses of the token-level round-trip theorems (C22), evaluated on a parsed file: every type, field list,
+union and struct body is well-formed in the sense of `TypeRef.wf`, `Field.wf`, `StructDef.wf`; a function result given
+as a bare type reference is the one anonymous field. -/
+def typeDefWF (isRet : Bool) : TypeDef → Bool
+  | .alias t => t.wf
+  | .struct (.fields [f]) => if isRet && f.name == [] then f.ty.wf else f.wf
+  | .struct sd => sd.wf
+
+def combWF (c : Comb) : Bool :=
+  match c.decl with
+  | .type d => d.name.wf && typeDefWF false d.ty
+  | .func d => d.name.wf && d.args.all Field.wf && typeDefWF true d.ret
+
 def handle (op : String) (args : List String) : String :=
   match op, args with
   | "lex", [h] =>
@@ -107,6 +121,16 @@ def handle (op : String) (args : List String) : String :=
         | .ok (.error _) => s!"ok {hexOfBytes t1} rt=err cm=na idem=na" ++ g
         | .panic => "panic"
         | .nofuel => "nofuel"
+      | .ok (.error _) => "rej"
+      | .panic => "panic"
+      | .nofuel => "nofuel"
+  | "wf", [h] =>
+    match bytesOfHex h with
+    | none => "bad-op"
+    | some s =>
+      match parseTL2File s with
+      | .ok (.ok f) =>
+        s!"ok guard={!(f.any Comb.hasDep) && !(f.any Comb.hasSingletonUnion)} wf={f.all combWF}"
       | .ok (.error _) => "rej"
       | .panic => "panic"
       | .nofuel => "nofuel"
